@@ -201,6 +201,51 @@ def run(ctx):
                                           "%s is not the same response under an identity middleware" % name if "edit" not in stack
                                           else "%s changed under a middleware that edits one header" % name)
                         ctx.nontriv(("recipe", name, iface, zc, method, str(hdrs), tuple(stack)))
+        # raw inner applications that use corners of the protocols
+        def wsgi_restart(environ, start_response):
+            # PEP 3333 error path: start a 200 with cookies, fail before the first chunk, start again with exc_info
+            start_response("200 OK", [("Set-Cookie", "session=1"), ("Set-Cookie", "theme=dark"), ("X-First", "1")])
+            try:
+                raise RuntimeError("boom")
+            except RuntimeError:
+                import sys as _s
+                start_response("500 Internal Server Error", [("Content-Type", "text/plain"), ("Set-Cookie", "err=1")], _s.exc_info())
+            return [b"failed"]
+
+        async def asgi_two_zerocopy(scope, receive, send):
+            import os as _os
+            fd = _os.open(env.binf, _os.O_RDONLY)
+            try:
+                await send({"type": "http.response.start", "status": 200, "headers": [(b"content-length", b"512")]})
+                await send({"type": "http.response.zerocopysend", "file": fd, "count": 100, "more_body": True})
+                await send({"type": "http.response.zerocopysend", "file": fd, "more_body": False})     # "the rest", from the current position
+            finally:
+                _os.close(fd)
+
+        async def asgi_offset_zerocopy(scope, receive, send):
+            import os as _os
+            fd = _os.open(env.binf, _os.O_RDONLY)
+            try:
+                await send({"type": "http.response.start", "status": 206, "headers": []})
+                await send({"type": "http.response.zerocopysend", "file": fd, "offset": 10, "count": 20, "more_body": True})
+                await send({"type": "http.response.body", "body": b"|", "more_body": True})
+                await send({"type": "http.response.zerocopysend", "file": fd, "offset": 0, "count": 5})
+            finally:
+                _os.close(fd)
+        for name, iface, app, zc in (("raw WSGI app restarting the response (exc_info)", "wsgi", wsgi_restart, False),
+                                     ("raw ASGI app: file in two zero-copy messages", "asgi", asgi_two_zerocopy, True),
+                                     ("raw ASGI app: zero-copy with offsets", "asgi", asgi_offset_zerocopy, True)):
+            bare = observe(iface, app, None, zc)
+            for stack in (["id"], ["id", "id"], ["edit", "id"]):
+                o = observe(iface, wrap(iface, app, stack), None, zc)
+                ctx.count()
+                ctx.traces_validated += 1
+                oh = sorted(h for h in o["headers"] if h[0] != "x-mw")
+                if o["exc"] or o["status"] != bare["status"] or oh != sorted(bare["headers"]) or o["body"] != bare["body"]:
+                    ctx.violation({"inner": name, "iface": iface, "stack": stack}, {"status": bare["status"], "headers": bare["headers"], "body_len": len(bare["body"])},
+                                  {"status": o["status"], "headers": oh, "body_len": len(o["body"]), "exc": o["exc"]},
+                                  "%s is not the same response under a middleware" % name)
+                ctx.nontriv(("raw", name, tuple(stack)))
         # the view decorator
         for iface in ("wsgi", "asgi"):
             pkg = recipes.pkg(iface)
